@@ -63,6 +63,9 @@ CHECKS = {
  "C20": (MC, "TLC enumerates files (sequences of line shapes x terminators); spec/Cli.tla pins line structure, comment lines, trimming and echo; the real eav binary is run on every file (default + ASan/UBSan) and compared; verdict/message compared with the library on the pinned address",
          "Every file of at most MaxLines lines over ~36 line shapes; per line the spec says whether it is a comment, which bytes reach eav_is_email and what is echoed; exit status, stdout structure, verdict and message are compared.",
          "Trusted: TLC, spec/Cli.tla, tools/cli.py (output parser), the library oracle run through the replay driver. Lines with NUL: the spec follows the tool's C-string reading (not pinned by the property beyond robustness)."),
+ "C10": (MC, "TLC-enumerated UTF-8 domains (8 scripts, IDN TLDs of the table, IDNA violations); relational replay U-label vs converter-produced A-label in mode 6531 and the ASCII modes; every outcome validated by TLC against the recorded converter answer",
+         "The property is relational and environment-dependent: what is decided is the library's treatment given the converter's answers (recorded from the same libidn2), not IDNA2008 itself.",
+         "Trusted: TLC, libidn2 as the reference converter, replay driver. IDNA2008 validity tables are not modelled; the violation list is a fixed sample of the classes the statement names."),
 }
 NOT_YET = {}
 
